@@ -39,3 +39,23 @@
         #[verifier::external_body]
         fn clone(&self) -> (r: Self) ensures r == *self { unimplemented!() }
     }
+//# section: field-callees
+    // callees of Field::try_from_node that are declared only (no contract here; the namespace table is unit D, lookups are C09)
+    impl RustDocument {
+        #[verifier::external_body]
+        pub fn switch_to_target_namespace(&mut self, namespace: &str) { unimplemented!() }
+        #[verifier::external_body]
+        pub fn find_namespace_by_abbreviation(&self, abbreviation: &str) -> (res: Option<&Rc<Namespace>>) { unimplemented!() }
+        #[verifier::external_body]
+        pub fn find_node_by_xml_name<'n>(&mut self, start_node: &Node<'n, 'n>, xml_name: &str, namespace: Option<&Namespace>) -> (res: Option<Rc<RustNode>>) { unimplemented!() }
+    }
+    impl RustNode {
+        #[verifier::external_body]
+        pub fn xml_name(&self) -> Option<&str> { unimplemented!() }
+    }
+    #[verifier::external_body]
+    fn split_type(node_type: &str) -> (res: (&str, Option<&str>)) { unimplemented!() }
+    #[verifier::external_body]
+    pub fn as_rust_type(node_type: &str, doc: &RustDocument) -> RustFieldType { unimplemented!() }
+    #[verifier::external_body]
+    pub fn rename_keywords(field_name: &str) -> (res: &str) { unimplemented!() }
